@@ -89,6 +89,42 @@ def run(tier, seed, findings):
             # a rejected operation leaves the arrays untouched
             for l in log:
                 pass
+        # every mark operation over whole blocks and sampled ranges (multi-step plans whose
+        # inverses must be exact), checked like a one-operation history
+        from prosemirror.transform import Transform
+
+        rnd2 = random.Random(seed + 5)
+        for doc in [d for d in D.corpus(name, 8 if tier == "quick" else 30, seed) if d.content.size <= 30]:
+            size = doc.content.size
+            rngs = [(0, size)] + [tuple(sorted((rnd2.randint(0, size), rnd2.randint(0, size)))) for _ in range(4 if tier == "quick" else 12)]
+            for f, t in rngs:
+                for m in ops.marks_pool(S, O):
+                    for opn in ("add_mark", "remove_mark"):
+                        tr = Transform(doc)
+                        try:
+                            getattr(tr, opn)(f, t, m)
+                        except Exception:  # noqa: BLE001
+                            continue  # C13's subject
+                        if not tr.steps:
+                            continue
+                        call = dict(fn=opn, schema=name, doc=D.doc_json(doc), f=f, t=t, mark=orc.mark_key(m), steps=[step_json(s) for s in tr.steps])
+                        rec.case((opn, name, orc.canon_json(call)), sample=dict(schema=name, doc=str(doc), op=f"{opn}({f},{t},{m.type.name})"))
+                        cur = tr.doc
+                        okk = True
+                        for i in range(len(tr.steps) - 1, -1, -1):
+                            try:
+                                r = tr.steps[i].invert(tr.docs[i]).apply(cur)
+                            except Exception as e:  # noqa: BLE001
+                                rec.violation("undo-raises", f"{type(e).__name__}: {e}", call)
+                                okk = False
+                                break
+                            if r.failed:
+                                rec.violation("undo-fails", r.failed, call)
+                                okk = False
+                                break
+                            cur = r.doc
+                        if okk and orc.canon_json(D.doc_json(cur)) != orc.canon_json(D.doc_json(doc)):
+                            rec.violation("undo-final", f"undoing {opn} does not restore the starting document", call)
         # single-step undo for primitive replace / attr / node-mark steps under this schema
         rnd = random.Random(seed)
         docs = [d for d in D.corpus(name, 8 if tier == "quick" else 30, seed) if d.content.size <= 20]
